@@ -81,7 +81,7 @@ func (s *service) Evaluate(ctx context.Context, request *pb.EvaluateRequestProto
 		Result: pe,
 	}
 	if _, err := proto.Marshal(r); err != nil {
-		panic(err)
+		return nil, err
 	}
 	return &pb.EvaluateResponseProto{
 		Result: pe,
